@@ -663,6 +663,19 @@ Definition selected (idxs : list (list Z)) (groups : list Z) (r : sec) : Prop :=
 Definition covers (c r : sec) : Prop := fst c <= fst r /\ snd r <= snd c.
 Definition groups_ok (nsub : Z) (groups : list Z) : Prop := forall g, In g groups -> 0 <= g <= nsub.
 
+(* what a match rule means: some value is a prefix / infix / suffix of the (lower-cased) data *)
+Definition affix_test (md : rmode) (data v : bytes) : bool :=
+  (len v <=? len data) &&
+  match md with
+  | RPrefix => bytes_eqb (firstn (length v) data) v
+  | RSuffix => bytes_eqb (skipn (length data - length v) data) v
+  | RContains => contains data v
+  end.
+Definition rule_spec (r : rule) (raw : bytes) : bool :=
+  let vs := if r_ci r then map to_lower (r_values r) else r_values r in
+  let data := if r_ci r then to_lower raw else raw in
+  xorb (r_invert r) (existsb (affix_test (r_mode r) data) vs).
+
 (* same document skeleton: same keys in the same order, same array lengths, null / bool untouched;
    a string or number is itself or has become a string *)
 Definition leaf_like (v : json) : Prop := match v with JStr _ | JNum _ => True | _ => False end.
